@@ -112,4 +112,50 @@ LeafGen(path) == IF path = "once" THEN 0 ELSE 1
 CaseOK(ty, path, v) == \A n \in 1..3 : ImplOutcome(ty, path, v, n) = StmtOutcome(ty, path, v, n)
 \* which builder paths type-check: the repeat-use path needs every owned leaf type to be Clone
 PathOK(ty, path) == path = "once" \/ ~HasTok(ty)
+
+(***************************************************************************)
+(* C19: how a call, its arguments and a pattern appear in mock-induced     *)
+(* panic messages (src/debug.rs, src/error.rs, generated debug_inputs).    *)
+(*  argument kinds and the rendering of the value with index v:            *)
+(***************************************************************************)
+ArgKinds == {"u8", "ru8", "mu8", "rru8", "str", "string", "slice", "vec", "nodbg", "rnodbg", "gen", "optstr", "dbg"}
+RenderArg(k, v) ==
+  CASE k \in {"u8", "ru8", "mu8", "rru8"} -> ToString(v)                       \* every reference layer is removed
+    [] k \in {"str", "string"}            -> "\"s" \o ToString(v) \o "\""
+    [] k \in {"slice", "vec"}             -> "[" \o ToString(v) \o ", " \o ToString(v + 1) \o "]"
+    [] k \in {"nodbg", "rnodbg", "gen"}   -> "?"                                 \* no Debug visible to the macro
+    [] k = "optstr"                        -> "Some(\"k" \o ToString(v) \o "\")"
+    [] OTHER                               -> "D(" \o ToString(v) \o ")"
+RECURSIVE JoinArgs(_, _)
+JoinArgs(kinds, i) == IF i > Len(kinds) THEN ""
+                      ELSE RenderArg(kinds[i], i) \o (IF i < Len(kinds) THEN ", " ELSE "") \o JoinArgs(kinds, i + 1)
+\* Trait::method(d1, ..., dn): Debug renderings of the actual arguments in declaration order
+CallText(path, kinds) == path \o "(" \o JoinArgs(kinds, 1) \o ")"
+
+\* pattern source text of the scenario's matching! invocation: a literal where the argument kind admits
+\* one, `_` elsewhere; `reject` makes the first literal-capable position (or a false guard) reject
+LitCapable(k) == k \in {"u8", "str", "string"}
+PatElem(k, i, reject) == IF ~LitCapable(k) THEN "_"
+                         ELSE IF k = "u8" THEN ToString(IF reject THEN i + 100 ELSE i)
+                         ELSE "\"s" \o ToString(IF reject THEN i + 100 ELSE i) \o "\""
+RECURSIVE JoinPat(_, _, _)
+JoinPat(kinds, i, rejectAt) == IF i > Len(kinds) THEN ""
+                      ELSE PatElem(kinds[i], i, i = rejectAt) \o (IF i < Len(kinds) THEN ", " ELSE "") \o JoinPat(kinds, i + 1, rejectAt)
+FirstLit(kinds) == LET S == { i \in 1..Len(kinds) : LitCapable(kinds[i]) } IN IF S = {} THEN 0 ELSE CHOOSE i \in S : \A j \in S : i <= j
+\* <<text inside matching!(...), text the message shows after Trait::method>>
+PatSrc(kinds, reject) ==
+  LET r == IF reject THEN FirstLit(kinds) ELSE 0 IN
+  IF reject /\ r = 0
+  THEN << "(" \o JoinPat(kinds, 1, 0) \o ") if false", "(" \o JoinPat(kinds, 1, 0) \o ") if {guard}" >>
+  ELSE << JoinPat(kinds, 1, r), "(" \o JoinPat(kinds, 1, r) \o ")" >>
+
+\* "WrongOrder2": the method's two consecutive ordered patterns, the first consumed, then ANOTHER ordered method is
+\* called: the message renders that call and names the method's second pattern as the expected one
+ErrKinds == {"NoMockImplementation", "NoMatching", "NoOutput", "WrongOrder", "WrongOrder2", "InputsNotMatched", "MoreThanOnce", "ExplicitPanic", "CannotUnmock", "NoDefaultImpl"}
+Rejecting(e) == e \in {"NoMatching", "InputsNotMatched"}
+\* does the message render the call with its arguments / name a pattern?
+RendersCall(e) == e \notin {"CannotUnmock", "NoDefaultImpl"}
+NamesPattern(e) == e \in {"NoOutput", "WrongOrder", "WrongOrder2", "InputsNotMatched", "MoreThanOnce", "ExplicitPanic"}
+\* positions listed in the mismatch report of a rejecting scenario (guard-free patterns only)
+RejectedPositions(kinds, e) == IF Rejecting(e) /\ FirstLit(kinds) # 0 THEN {FirstLit(kinds) - 1} ELSE {}
 =============================================================================
